@@ -177,6 +177,7 @@ class Agg(object):
         self.fail_groups = {}  # key -> [count, min_idx, facts, obs]
         self.samples = []
         self.extra = Counter()
+        self.sets = {}
         self.harness_errors = []
 
     def add_case(self, idx, case, sites, nontrivial_key=None, outcome=None, sample=False):
@@ -220,6 +221,8 @@ class Agg(object):
             if len(self.samples) < 4:
                 self.samples.append(s)
         self.extra.update(o.extra)
+        for k, v in o.sets.items():
+            self.sets.setdefault(k, set()).update(v)
         self.harness_errors.extend(o.harness_errors)
         return self
 
@@ -253,7 +256,7 @@ class Check(object):
 
     def replay(self, rec):
         """Re-run one recorded case; return list of failing sites."""
-        sites, _, _ = self.run_case(rec["case"])
+        sites = self.run_case(rec["case"])[0]
         return [s for s in sites if not s["ok"]]
 
 
@@ -281,7 +284,14 @@ def _work_range(args):
     for i in range(lo, hi):
         case = sp[i]
         try:
-            sites, nt, oc = chk.run_case(case)
+            res = chk.run_case(case)
+            sites, nt, oc = res[:3]
+            if len(res) > 3 and res[3]:
+                for k, v in res[3].items():
+                    if isinstance(v, (set, list, tuple)):
+                        agg.sets.setdefault(k, set()).update(h64(x) for x in v)
+                    else:
+                        agg.extra[k] += v
         except Exception:
             agg.harness_errors.append({"index": i, "case": case, "tb": traceback.format_exc()})
             if len(agg.harness_errors) > 3:
@@ -502,6 +512,8 @@ def run_check(pid, tier, seed):
     }
     for k, v in agg.extra.items():
         cov.setdefault(k, v)
+    for k, v in agg.sets.items():
+        cov.setdefault(k, len(v))
     cov.update(jsonable(cov_extra))
     ev = {
         "property_id": pid,
